@@ -125,6 +125,29 @@ def plan(prop, tier):
         return fams
     if prop == "C06":
         return pipeline_plan(tier)
+    if prop == "C13":
+        two = dict(sinks=["probe", "probe"])
+        b = dict(maxData=1, maxTop=4 if q else 5, maxPull=1, allowFail=False, burst=q is False)
+        bb = dict(maxData=3, maxTop=8, maxPull=3, allowFail=True, sinkErr=True)
+        fams = []
+        for kind, par in (("map", dict(f="inc")), ("filter", dict(p="even")), ("scan", dict(r="lin", seed=5)),
+                          ("take", dict(n=1)), ("skip", dict(n=1))):
+            fams.append((kind + "_2s", scen.with_bounds(scen.unary(kind, **par), kind, **two, **b),
+                         scen.with_bounds(scen.unary(kind, **dict(par, **({"n": 2} if "n" in par else {}))), kind,
+                                          **two, **bb)))
+        nb = dict(maxData=1, maxTop=4, maxPull=0 if q else 1, allowFail=False, burst=False)
+        for kind in ("merge", "concat", "combine"):
+            fams.append((kind + "2_2s", scen.with_bounds(scen.nary(kind, 2), kind, **two, **nb),
+                         scen.with_bounds(scen.nary(kind, 2), kind, **two, **bb)))
+        fams.append(("flatten_2s", scen.with_bounds(scen.flatten_g(2), "flatten", **two, **nb),
+                     scen.with_bounds(scen.flatten_g(2), "flatten", **two, **bb)))
+        fams.append(("fromiter_2s", [scen.with_bounds(from_iter_g(xs), "from_iter", maxTop=5 if q else 6, maxPull=3, **two)
+                                     for xs in ([1, 2], None)],
+                     scen.with_bounds(from_iter_g([1, 2, 3, 4]), "from_iter", maxTop=10, maxPull=6, sinkErr=True, **two)))
+        g = {"nodes": [{"id": 1, "kind": "interval", "period": 2}], "root": 1}
+        fams.append(("interval_2s", scen.with_bounds(g, "interval", maxTop=6 if q else 7, maxPull=0, allowFail=False, **two),
+                     scen.with_bounds(g, "interval", maxTop=12, maxPull=0, allowFail=True, **two)))
+        return fams
     return []
 
 
